@@ -20,7 +20,7 @@ def main(tier):
     ck = report.Check("C12", tier, level="other", technique="static effect analysis (one writer per element per barrier group, fixed group order) + structural taint rules on OpenMP clauses and reduction results")
     ck.rule("R-C12-1", "each element written by at most one unit per barrier group; groups ordered by program text", floor=60)
     ck.rule("R-C12-2", "floating-point reductions only in the scalar kernels, statically scheduled, results stay scalar", floor=10)
-    ck.rule("R-C12-3", "element-wise kernels equal their definition (exact tables)", floor=3)
+    ck.rule("R-C12-3", "element-wise and reduction kernels equal their definition (exact values); no out-of-range access", floor=3)
     prog = eff_runs.load()
     ck.units += prog.units
     shapes = [(7, 8, 3, False), (9, 8, 4, True), (7, 12, 2, False)] if tier == "quick" else [(7, 8, 3, False), (9, 8, 4, True), (7, 12, 2, False), (11, 16, 5, False), (9, 4, 6, True), (13, 20, 4, True)]
@@ -129,12 +129,64 @@ def main(tier):
             continue
         ck.instance("R-C12-3", nm)
         a, b = A(), B()
+        n_oob = len(dom.oob)
         it.call_function(fns[0], None, mk(a, b))
         bad = [j for j in range(N) if not dag.equal(a.sym.get(j, dag.atom("a_%d" % j)), want(j))]
-        if bad or len(set(a.writes)) != N:
+        if dom.oob[n_oob:]:
+            ck.violation("R-C12-3", nm.split("<")[0], ir.locstr(fns[0]), "%s: out-of-range access %s[%s] (length %s) at %s" % ((nm,) + tuple(dom.oob[n_oob])))
+        elif bad or len(set(a.writes)) != N:
             ck.violation("R-C12-3", nm.split("<")[0], ir.locstr(fns[0]), "%s: element %s is %s, expected %s" % (nm, bad[:1], dag.show(a.sym.get(bad[0])) if bad else None, dag.show(want(bad[0])) if bad else None))
         else:
             ck.ok("R-C12-3", nm, sample={"kernel": nm, "element 0": dag.show(a.sym[0])})
+    # the scalar reduction kernels against their definitions (exact values; the order of the partial sums is not decided)
+    from fractions import Fraction
+    red_specs = [
+        ("l2_norm_squared<double>", 1, lambda a, b: [Cell(a)], lambda: dag.total(dag.atom("a_%d" % j) * dag.atom("a_%d" % j) for j in range(N)), "sum of squares"),
+        ("dot_product<double>", 2, lambda a, b: [Cell(a), Cell(b)], lambda: dag.total(dag.atom("a_%d" % j) * dag.atom("b_%d" % j) for j in range(N)), "sum of products"),
+        ("l1_norm<double>", 1, lambda a, b: [Cell(a)], lambda: dag.total(dag.func("fabs", dag.atom("a_%d" % j)) for j in range(N)), "sum of absolute values"),
+    ]
+    for nm, npar, mk, want, what in red_specs:
+        fns = [f for f in whole.fns(nm) if len(f["params"]) == npar]
+        if not fns:
+            ck.note("vector kernel %s is not instantiated in the library build: outside what the build covers" % nm)
+            continue
+        ck.instance("R-C12-3", nm)
+        a, b = A(), B()
+        n_oob = len(dom.oob)
+        try:
+            got = it.call_function(fns[0], None, mk(a, b))
+        except ir.AnalysisBroken as ex:
+            ck.undecide("R-C12-3", nm, "kernel outside the value model: %s" % ex)
+            continue
+        probs = []
+        if dom.oob[n_oob:]:
+            probs.append("out-of-range access %s[%s] (length %s) at %s" % dom.oob[n_oob])
+        if not isinstance(got, dag.Node) or not dag.equal(got, want()):
+            probs.append("returns %s, not the %s" % (dag.show(got, 120) if isinstance(got, dag.Node) else got, what))
+        if probs:
+            ck.violation("R-C12-3", nm.split("<")[0], ir.locstr(fns[0]), "%s: %s" % (nm, "; ".join(probs)))
+        else:
+            ck.ok("R-C12-3", nm, sample={"kernel": nm, "value": what})
+    # infinity norm: max |x_i| on constant vectors whose extreme entry sits first, last, in the middle, and is negative
+    fns = [f for f in whole.fns("infinity_norm<double>") if len(f["params"]) == 1]
+    if fns:
+        for vec in ([9, -1, 2, 3, -4, 5, 6], [1, 2, 3, -4, 5, 6, -11], [1, 2, -13, 4, 5, 6, 7], [Fraction(1, 2), Fraction(-3, 4), Fraction(1, 4), 0, 0, 0, 0]):
+            key = "infinity_norm<double> %s" % (vec,)
+            ck.instance("R-C12-3", key)
+            a = SArr("a", len(vec), gen=lambda j, v=vec: dag.const(v[j]))
+            n_oob = len(dom.oob)
+            try:
+                got = it.call_function(fns[0], None, [Cell(a)])
+            except ir.AnalysisBroken as ex:
+                ck.undecide("R-C12-3", key, "kernel outside the value model: %s" % ex)
+                continue
+            want_v = max(abs(Fraction(v)) for v in vec)
+            g = dag.lift(got) if isinstance(got, (dag.Node, int, Fraction)) else None
+            if dom.oob[n_oob:] or g is None or g.op != "c" or g.a != want_v:
+                ck.violation("R-C12-3", "infinity_norm", ir.locstr(fns[0]), "%s returns %s, expected %s%s" % (key, dag.show(g) if g is not None else got, want_v,
+                             "; out-of-range access %s[%s] (length %s) at %s" % dom.oob[n_oob] if dom.oob[n_oob:] else ""))
+            else:
+                ck.ok("R-C12-3", key)
     ck.extra["omp_directives"] = n_omp
     return ck.finish(
         "Schedule-independence of every vector output is decided from the same effect logs as C11: within a barrier group an element "
